@@ -885,7 +885,45 @@ def capacity_rules(fb, R):
             R.broken('B3c: reserve_space does not advance m_written exactly once')
             continue
         target = adv[0]['id']
-        grows = {g['id'] for g in fn.all_nodes() if g.get('k') == 'call' and g.get('q') == BUF + '::grow'}
+
+        def establishing_helpers(host, host_pd, depth=0):
+            """calls in `host` to a Buffer helper that receives the size parameter and (re-)establishes the capacity on every normal path"""
+            out = set()
+            if depth > 1:
+                return out
+            for c_ in host.all_nodes():
+                if c_.get('k') != 'call' or not (c_.get('q') or '').startswith(BUF + '::') or c_.get('q') in (BUF + '::grow', BUF + '::grow_internal'):
+                    continue
+                if (host.sn(c_.get('recv')) or {'k': 'this'}).get('k') != 'this':
+                    continue
+                for ai, a_ in enumerate(c_.get('args', [])):
+                    av = host.sn(_named(host, a_))
+                    if av is None or av.get('k') != 'var' or av.get('d') not in host_pd:
+                        continue
+                    for h in fb.fns(c_['q']):
+                        if len(h.params) <= ai or h.usr == host.usr:
+                            continue
+                        hpd = {h.params[ai]['d']}
+                        hgrows = {g['id'] for g in h.all_nodes() if g.get('k') == 'call' and g.get('q') == BUF + '::grow'} | establishing_helpers(h, hpd, depth + 1)
+                        hmods = [g for g in h.all_nodes() if g.get('k') == 'call' and g.get('q') == BUF + '::grow_internal']
+
+                        def h_edge(b, idx, s_, h=h, hpd=hpd):
+                            blk = h.blocks[b]
+                            if 'cond' in blk and len(blk['succs']) == 2:
+                                fits = is_fits_test(h, blk['cond'], hpd)
+                                if fits is not None and idx == fits:
+                                    return False
+                            return True
+
+                        def h_bar(e, h=h, hgrows=hgrows):
+                            return (not isinstance(e, tuple)) and (e in hgrows or _is_throw_or_noreturn(h, e))
+                        ok_h = path_search(h, h.entry, exit_t, h_bar, h_edge, from_block_start=True) is None
+                        for m_ in hmods:
+                            ok_h = ok_h and path_search(h, m_['id'], exit_t, h_bar, h_edge) is None
+                        if ok_h:
+                            out.add(c_['id'])
+            return out
+        grows = {g['id'] for g in fn.all_nodes() if g.get('k') == 'call' and g.get('q') == BUF + '::grow'} | establishing_helpers(fn, pd)
         modifiers = [g for g in fn.all_nodes() if g.get('k') == 'call' and g.get('q') in (BUF + '::grow_internal',)]
 
         def edge_ok(b, idx, s_, fn=fn, pd=pd):
@@ -1229,7 +1267,7 @@ def run(ctx):
     R.expect('S7-user-area-matches-reader-layout', 5)
     R.expect('B5-readers-see-committed-data-only', 7)
     R.expect('B6-builder-offset-survives-growth', 2)
-    R.expect('B3-capacity-established-before-reservation', 2)
+    R.expect('B3-capacity-established-before-reservation', 1)
     R.expect('B7-capacity-is-aligned', 3)
     R.expect('S8-validate-before-write', 3)
     R.expect('S5-destructor-pads', 4)
